@@ -756,6 +756,36 @@ def diff_obligations(pid, tier, seed):
     return {'obligations': obs, 'bounds': bounds}
 
 
+# ---------------------------------------------------------------------------
+# C13: representable data
+
+REPR_QUICK = ['II', 'UU', 'LL', 'QQ', 'IF', 'fs', 'OO', 'OI']
+REPR_ALL = DIFF_FAMILIES_ALL
+
+
+def repr_obligations(pid, tier, seed):
+    from harness import h_repr
+    obs = []
+    quick = tier == 'quick'
+    t = 200 if quick else 1500
+    for fam in ('II', 'UU', 'LL', 'QQ') + (() if quick else ('IU', 'UI', 'LQ', 'QL')):
+        for kind in ('BTree', 'Bucket', 'TreeSet', 'Set'):
+            ne = len(h_repr.SET_ENTRIES if kind in ('Set', 'TreeSet') else h_repr.ENTRIES)
+            obs.append(dict(id='%s/py_int/%s/%s' % (pid, fam, kind), mod='h_repr', fn='py_int', nk=0,
+                            args=[('n', 'int'), ('e', 'int'), ('pre', 'int')], pre=['0 <= e < %d' % ne, '0 <= pre < 2'],
+                            params=dict(family=fam, kind=kind), timeout=t))
+    npal = len(h_repr.INTS + h_repr.FLOATS + h_repr.OTHERS) + 1
+    for fam in (REPR_QUICK if quick else REPR_ALL):
+        for impl in ('c', 'py'):
+            for kind in ('BTree', 'Bucket', 'TreeSet', 'Set'):
+                ne = len(h_repr.NS_ENTRIES if kind in ('Set', 'TreeSet') else h_repr.N_ENTRIES)
+                obs.append(dict(id='%s/native/%s/%s/%s' % (pid, fam, impl, kind), mod='h_repr', fn='native', nk=0,
+                                args=[('e', 'int'), ('p', 'int')], pre=['0 <= e < %d' % ne, '0 <= p < %d' % npal],
+                                params=dict(family=fam, kind=kind, impl=impl), timeout=t))
+    return {'obligations': obs, 'bounds': {'python_integers': 'unbounded (z3 Int)', 'palette': npal,
+                                           'families': REPR_QUICK if quick else REPR_ALL}}
+
+
 COMMON_ASSUME = [
     'key objects are observed by the containers only through rich comparison, identity and None-ness '
     '(true for the object-key templates; native-key families are covered by their own obligations where stated)',
@@ -1014,5 +1044,24 @@ PROPS = {
                    'objectkeymacros.h / _fsBTree.c vs BTrees._datatypes'],
         assumptions=COMMON_ASSUME + ['part (2) is solver-enumeration of selector tuples over concrete palettes: the compiled native-key '
                                      'code unboxes keys, so they cannot stay symbolic there'],
+    ),
+    'C13': dict(
+        families=REPR_QUICK,
+        families_thorough=REPR_ALL,
+        gen=lambda tier, seed: repr_obligations('C13', tier, seed),
+        explanation='(1) Pure-Python native-integer families (32/64 bit, signed/unsigned): an UNBOUNDED symbolic integer is offered as '
+                    'key or value through every writing entry point (item assignment, insert, setdefault, update, constructor, add, '
+                    '|=) of every container kind, empty or holding keys; CrossHair executes BTrees._datatypes and _base on the '
+                    'symbol (struct\'s packer replaced by a calibrated range-contract stub) and z3 decides for ALL integers: '
+                    'accepted iff inside the family range, accepted data reads back equal, rejected data raises TypeError and '
+                    'leaves the container unchanged, lookups of unrepresentable keys report absence. (2) Compiled and Python classes '
+                    'of the native, bytes, float and object families: (entry point, argument) are solver-chosen selectors into '
+                    'palettes of 18 boundary integers, 14 floats (incl. float32 limits, subnormals, inf/nan), 11 values of other types, '
+                    'including __setstate__; oracle = the declared domain with exact-typed read-back (floats: IEEE single rounding).',
+        functions=['BTrees._datatypes: _AbstractNativeDataType.__call__, I/U/L/Q/F/f/s/O/Any', 'intkeymacros.h, intvaluemacros.h '
+                   '(COPY_KEY_FROM_ARG, COPY_VALUE_FROM_ARG, longlong_convert, ulonglong_convert), floatvaluemacros.h, objectkeymacros.h '
+                   '(check_argument_cmp), _fsBTree.c, as compiled into _bucket_set/_BTree_set/_bucket_setstate/_set_setstate'],
+        stubs=['struct.Struct(fmt).pack for i/I/q/Q: accepts exactly the integers of the format range (calibrated against struct at start-up)'],
+        assumptions=['compiled code: arguments are concrete palette values selected by the solver (keys are unboxed in C)'],
     ),
 }
